@@ -209,6 +209,44 @@ def run(ck):
               "after the read, fewer bytes written than the destination holds is an error (tested on the cursor position, so it also holds for chunked byte strings)" if len(good) == 1 else
               "no test after the read that the bytes actually written fill the fixed-size destination: a chunked byte string shorter than the destination is accepted, the rest stays zero", g.loc())
     ck.floor("CMP", "fixed-size byte string decoders", nfx, 1)
+    # every byte of a decoded item is either interpreted or checked: a decoder that walks its input with an explicit iterator
+    # (`chunks`, `rchunks`, `iter`, `split`) and takes a fixed number of elements with next()/next_back() outside a loop must
+    # also establish that nothing is left (a later element tested to be absent, or the rest consumed by all/any/for/count);
+    # otherwise the elements it never asks for are ignored - e.g. the high words of an over-long bignum
+    nit = 0
+    for pth in sorted(p2 for p2 in cg.bodies if re.search(r"common::cbor::(primitives|decoder|value)::", p2) and not re.search(r"::tests?::|Serialize|serialize|encode", p2)):
+        for bdy in cg.bodies[pth]:
+            g = Fn(bdy)
+            lps = natural_loops(g)
+            straight = [(bi, t) for (bi, t) in g.calls(r"Iterator::next$|DoubleEndedIterator::next_back$|Iterator::nth$")
+                        if not any(bi in lp for lp in lps) and re.search(r"slice::(R?Chunks|R?ChunksExact|Iter|Split|RSplit|Windows)", t["f"].get("self", "") or "")]
+            if not straight:
+                continue
+            nit += 1
+            def it_local(op):
+                q = op_place(op)
+                for _ in range(6):
+                    if q is None:
+                        return None
+                    ds = g.defs().get(q[0], [])
+                    if len(ds) == 1 and ds[0][1] != "t" and ds[0][2]["rv"].get("k") == "ref":
+                        return ds[0][2]["rv"]["p"][0]
+                    if len(ds) == 1 and ds[0][1] != "t" and ds[0][2]["rv"].get("k") == "use":
+                        q = op_place(ds[0][2]["rv"]["a"])
+                        continue
+                    return q[0]
+                return None
+            its = set(it_local(t["args"][0]) for (_, t) in straight)
+            rest = g.calls(r"Iterator::(all|any|count|for_each|try_for_each|fold|try_fold|last)$|ExactSizeIterator::len$|::is_empty$|::remainder$|::as_slice$")
+            rest_used = [bi for (bi, t) in rest if t["args"] and (it_local(t["args"][0]) in its or any(a[0] == "local" and a[1] in its for a in g.origins(t["args"][0], deep=True)))]
+            # or the iterator is drained by a loop
+            looped = [bi for (bi, t) in g.calls(r"Iterator::next$|DoubleEndedIterator::next_back$") if any(bi in lp for lp in lps) and it_local(t["args"][0]) in its]
+            none_req = bool(looped)
+            ok = bool(rest_used) or none_req
+            ck.ob("COV", pth, "input-iterator-exhausted", ok,
+                  "the remaining elements are consumed or tested to be absent" if ok else
+                  "%d element(s) are taken from an iterator over the input with next() and the rest is never looked at: input beyond them is silently ignored" % len(straight), g.loc(straight[0][0]))
+    ck.note("%d decoder functions take elements from an input iterator outside a loop (0 on the pinned tree; the seeded change C17-d is the positive example)" % nit)
     # unknown entries kept in an `other` map are written back one by one, unconditionally, and the announced map size counts
     # all of them: dropping some (e.g. those whose value is null) loses data the type promised to preserve
     nloop = 0
